@@ -97,6 +97,143 @@ func (r *wmRef) done(t uint64) {
 	r.recompute()
 }
 
+func (r *wmRef) clone() *wmRef {
+	c := newWmRef()
+	for k, v := range r.out {
+		c.out[k] = v
+	}
+	for k, v := range r.outc {
+		c.outc[k] = v
+	}
+	for k, v := range r.exempt {
+		c.exempt[k] = v
+	}
+	for k, v := range r.caps {
+		c.caps[k] = append([]uint64(nil), v...)
+	}
+	for k, v := range r.seen {
+		c.seen[k] = v
+	}
+	c.U, c.L = r.U, r.L
+	return c
+}
+
+// key: canonical form of the reference state (for deduplicating candidate linearizations)
+func (r *wmRef) key(b []byte) []byte {
+	var idx []uint64
+	for t := range r.seen {
+		idx = append(idx, t)
+	}
+	sort.Slice(idx, func(i, j int) bool { return idx[i] < idx[j] })
+	b = append(b, byte(r.U), byte(r.U>>8), byte(r.L), byte(r.L>>8))
+	for _, t := range idx {
+		b = append(b, byte(t), byte(t>>8), byte(r.out[t]+64), byte(r.outc[t]), byte(r.exempt[t]), byte(len(r.caps[t])))
+		cs := append([]uint64(nil), r.caps[t]...)
+		sort.Slice(cs, func(i, j int) bool { return cs[i] < cs[j] })
+		for _, c := range cs {
+			b = append(b, byte(c), byte(c>>8))
+		}
+	}
+	return b
+}
+
+// wmLin: the reference as a LINEARIZABILITY oracle. Begin and Done take effect at some moment between their call and
+// their return - an implementation that hands the mark to a goroutine takes effect at the hand-off, one that updates
+// its state under a lock takes effect there and has further scheduling points (waking waiters) before it returns -
+// and calls of different clients overlap. The oracle keeps every reference state that some order of the effects
+// consistent with the call/return intervals seen so far can produce; every observation must be admitted by at least
+// one of them and rules out the others.
+type wmLin struct {
+	cands []*wmCand
+	pend  []*wmStep // per client: the Begin/Done that has been called and has not returned
+	buf   []byte
+}
+
+type wmCand struct {
+	r       *wmRef
+	applied []bool // per client: has its pending operation taken effect in this candidate?
+}
+
+func newWmLin(clients int) *wmLin {
+	return &wmLin{cands: []*wmCand{{r: newWmRef(), applied: make([]bool, clients)}}, pend: make([]*wmStep, clients)}
+}
+
+func (l *wmLin) candKey(c *wmCand) string {
+	b := l.buf[:0]
+	for _, a := range c.applied {
+		if a {
+			b = append(b, 1)
+		} else {
+			b = append(b, 0)
+		}
+	}
+	b = c.r.key(b)
+	l.buf = b
+	return string(b)
+}
+
+// call: client starts a Begin or Done; afterwards every order in which the pending operations may have taken
+// effect is represented.
+func (l *wmLin) call(client int, s wmStep) {
+	l.pend[client] = &s
+	for _, c := range l.cands {
+		c.applied[client] = false
+	}
+	seen := map[string]bool{}
+	for _, c := range l.cands {
+		seen[l.candKey(c)] = true
+	}
+	for i := 0; i < len(l.cands); i++ {
+		c := l.cands[i]
+		for k, p := range l.pend {
+			if p == nil || c.applied[k] {
+				continue
+			}
+			n := &wmCand{r: c.r.clone(), applied: append([]bool(nil), c.applied...)}
+			if p.Op == "B" {
+				n.r.begin(p.T)
+			} else {
+				n.r.done(p.T)
+			}
+			n.applied[k] = true
+			if key := l.candKey(n); !seen[key] {
+				seen[key] = true
+				l.cands = append(l.cands, n)
+			}
+		}
+	}
+}
+
+// ret: the client's operation has returned, so it has taken effect.
+func (l *wmLin) ret(client int) {
+	keep := l.cands[:0]
+	for _, c := range l.cands {
+		if c.applied[client] {
+			keep = append(keep, c)
+		}
+	}
+	l.cands = keep
+	l.pend[client] = nil
+}
+
+// observe: DoneUntil was read as d. Candidates whose upper bound is below d are ruled out; false if none is left.
+func (l *wmLin) observe(d uint64) (ok bool, maxU uint64) {
+	keep := l.cands[:0]
+	for _, c := range l.cands {
+		if c.r.U > maxU {
+			maxU = c.r.U
+		}
+		if d <= c.r.U {
+			keep = append(keep, c)
+		}
+	}
+	if len(keep) == 0 {
+		return false, maxU
+	}
+	l.cands = keep
+	return true, maxU
+}
+
 // ---------------------------------------------------------------- scripts
 
 // wmStep: op ∈ B (Begin) D (Done) W (WaitForMark, background ctx) V (WaitForMark, cancellable ctx) X (cancel)
@@ -128,7 +265,7 @@ func scriptString(scripts [][]wmStep) string {
 func wmScenario(scripts [][]wmStep, obs *string) vsched.Scenario {
 	return func() (func(), func(*vsched.Exec), func(vsched.Result) error) {
 		var w *watermark.WaterMark
-		r := newWmRef()
+		lin := newWmLin(len(scripts))
 		var last uint64
 		var verr error
 		n := len(scripts)
@@ -156,12 +293,14 @@ func wmScenario(scripts [][]wmStep, obs *string) vsched.Scenario {
 				vsched.GoUser(fmt.Sprintf("c%d", i), func() {
 					for _, s := range sc {
 						switch s.Op {
-						case "B":
-							w.Begin(s.T)
-							r.begin(s.T)
-						case "D":
-							w.Done(s.T)
-							r.done(s.T)
+						case "B", "D":
+							lin.call(i, s)
+							if s.Op == "B" {
+								w.Begin(s.T)
+							} else {
+								w.Done(s.T)
+							}
+							lin.ret(i)
 						case "X":
 							cancelled = true
 							cancel()
@@ -202,12 +341,16 @@ func wmScenario(scripts [][]wmStep, obs *string) vsched.Scenario {
 				fail("doneuntil-decreased", "DoneUntil decreased %d -> %d", last, d)
 			}
 			last = d
-			if d > r.U {
-				fail("doneuntil-passed-unfinished", "DoneUntil=%d exceeds the reference upper bound %d (unfinished work at or below it)", d, r.U)
+			if ok, u := lin.observe(d); !ok {
+				fail("doneuntil-passed-unfinished", "DoneUntil=%d exceeds the reference upper bound %d (unfinished work at or below it) under every order in which the calls made so far can have taken effect", d, u)
 			}
 		}
 		check := func(res vsched.Result) error {
+			if len(lin.cands) == 0 {
+				lin.cands = []*wmCand{{r: newWmRef()}}
+			}
 			if obs != nil {
+				r := lin.cands[0].r
 				*obs = fmt.Sprintf("du=%d L=%d U=%d fin=%d/%d dl=%v", last, r.L, r.U, finished, n, res.Deadlock)
 			}
 			if verr != nil {
@@ -216,39 +359,46 @@ func wmScenario(scripts [][]wmStep, obs *string) vsched.Scenario {
 			if len(res.Panics) > 0 || res.Horizon {
 				return StdCheck(res)
 			}
-			if res.Deadlock {
-				// a waiter may legitimately wait forever for an index that is never reached
-				for i, t := range waiting {
-					if t < 0 {
-						continue
+			// the end state is judged against every remaining candidate order: it is accepted if one of them admits it
+			judge := func(r *wmRef) error {
+				if res.Deadlock {
+					// a waiter may legitimately wait forever for an index that is never reached
+					for i, t := range waiting {
+						if t < 0 {
+							continue
+						}
+						if r.L >= uint64(t) {
+							return oerr("waiter-stuck", "client %d blocked in WaitForMark(%d) although every index up to %d is finished (DoneUntil=%d)", i, t, r.L, last)
+						}
+						if waitCanc[i] && cancelled {
+							return oerr("waiter-stuck-cancelled", "client %d blocked in WaitForMark(%d) although its context was cancelled", i, t)
+						}
 					}
-					if r.L >= uint64(t) {
-						return oerr("waiter-stuck", "client %d blocked in WaitForMark(%d) although every index up to %d is finished (DoneUntil=%d)", i, t, r.L, last)
+					if finished+countWaiting(waiting) < n {
+						return StdCheck(res) // blocked somewhere else than in WaitForMark
 					}
-					if waitCanc[i] && cancelled {
-						return oerr("waiter-stuck-cancelled", "client %d blocked in WaitForMark(%d) although its context was cancelled", i, t)
+					// quiescent by definition of deadlock: liveness bound
+					if last < r.L {
+						return oerr("doneuntil-stuck", "quiescent with DoneUntil=%d below %d although every begun index up to %d is finished", last, r.L, r.L)
 					}
+					return nil
 				}
-				blockedElsewhere := false
-				for i := range scripts {
-					_ = i
-				}
-				if finished+countWaiting(waiting) < n {
-					blockedElsewhere = true
-				}
-				if blockedElsewhere {
-					return StdCheck(res)
-				}
-				// quiescent by definition of deadlock: liveness bound
-				if last < r.L {
-					return oerr("doneuntil-stuck", "quiescent with DoneUntil=%d below %d although every begun index up to %d is finished", last, r.L, r.L)
+				if quiesced && finalDU < r.L {
+					return oerr("doneuntil-stuck", "quiescent with DoneUntil=%d below %d although every begun index up to %d is finished", finalDU, r.L, r.L)
 				}
 				return nil
 			}
-			if quiesced && finalDU < r.L {
-				return oerr("doneuntil-stuck", "quiescent with DoneUntil=%d below %d although every begun index up to %d is finished", finalDU, r.L, r.L)
+			var first error
+			for _, c := range lin.cands {
+				err := judge(c.r)
+				if err == nil {
+					return nil
+				}
+				if first == nil {
+					first = err
+				}
 			}
-			return nil
+			return first
 		}
 		return main, monitor, check
 	}
@@ -479,6 +629,6 @@ func init() {
 			"preemption-bounded: context switches at blocking points are free, preemptions limited per the unit's bound",
 			"indices are the ones that were begun or finished; between the reference lower and upper bound either behaviour is accepted",
 		},
-		QuickS: 45, ThoroughS: 900,
+		QuickS: 60, ThoroughS: 900,
 	}
 }
